@@ -337,6 +337,10 @@ func (m *Manager) newStream(ctx context.Context, sid uint64, kind, rpc string) (
 		return stream, nil
 
 	case <-m.sigs.term.Signal():
+		// the stream has been published but nothing is going to manage it:
+		// terminate it here so that the reader, which may already be
+		// delivering a packet to it, is not left waiting for a receiver.
+		stream.Cancel(m.sigs.term.Err())
 		return nil, m.sigs.term.Err()
 	}
 }
